@@ -297,7 +297,8 @@ class Ledger(object):
             x.items = {"n": None, "offered": [], "inflight": set(), "done": {}, "results": None,
                        "stopped": False}
             old = getattr(x, "rerun_of", None)
-            if old is not None and old.items is not None and old.items.get("n") is not None:
+            if old is not None and old.items is not None and old.items.get("n") is not None \
+                    and old.task_status != "succeeded":
                 # re-execution of a with-items task: items that had succeeded stay done unless
                 # reset_items was asked for; only the others are offered again
                 x.items["n"] = old.items["n"]
